@@ -23,13 +23,14 @@ EXPLANATION = ("Result.update and Result.merge are symbolically executed on Resu
                "update adds exactly one observation to the view per type (MISC replaces), merge adds the views (MISC: other wins) "
                "and leaves the operand untouched (frame), update(v,t) == merge(singleton(v,t)) and merge is associative with the "
                "empty result as unit, hence fold(update) is a monoid homomorphism and every chunking/association gives the same "
-               "view (lemma L-FOLD, standard induction) - additionally executed directly for all chunkings of sequences of length "
+               "view (lemma L-FOLD, induction over merge plans, machine-checked in Lean 4 in the thorough tier) - additionally executed directly for all chunkings of sequences of length "
                "<= 4 with symbolic observations.  Set level: merge_all_results merges per name and the object graphs of the two "
                "sets stay disjoint (no shared Result / list / array).  Grid union (combine_*) is a bounded native check.")
 ASSUMPTIONS = [
     "ideal-real arithmetic for float statistics (float + is not associative); integer statistics exact",
-    "lemma L-FOLD (monoid homomorphism => independence of chunking/association) is the textbook induction over the proved "
-    "unit/associativity/singleton obligations; not machine-checked",
+    "lemma L-FOLD (singleton + associativity + right unit => every merge plan over contiguous chunks gives the view of one result "
+    "updated with the whole sequence; without the unit for plans whose chunks are non-empty, as for MISC) is the induction over "
+    "the proved obligations: machine-checked in Lean 4 (lemmas/FoldChunking.lean) in the thorough tier, assumed in the quick tier",
     "combine_simulation_results/parameters (np.union1d grids): bounded native check only",
 ]
 TRUSTED_BASE = ["python list/dict semantics and copy.deepcopy executed natively on the symbolic object graph"]
@@ -350,6 +351,111 @@ def ob_set_merge(typ, acc):
     return verify(body)
 
 
+@obligation("set/combine_overlapping_grids_symbolic_values", params=[{"typ": t, "la": la, "lb": lb} for t, la, lb in
+                                                                    (("SUM", 2, 2), ("RATIO", 2, 1), ("CHOICE", 1, 2), ("SUM", 3, 2))],
+            timeout=600,
+            desc="combine_simulation_results(S1, S2) symbolically executed (combine_simulation_parameters, np.union1d natively on the symbolic "
+                 "values - one path per ordering/coincidence pattern -, get_unpacked_params_list, get_pack_indexes incl. its eval'd index "
+                 "expression, Result.merge) for grids of ARBITRARY ascending real values and results in arbitrary states: the union grid is "
+                 "the ascending duplicate-free union; each union point holds exactly empty + view of S1's result for that value (if S1 has "
+                 "it) + S2's (if S2 has it); operands unchanged")
+def ob_combine_symbolic(typ, la, lb):
+    def body(c, it):
+        import pyphysim.simulations.results as r
+        from pyphysim.simulations.parameters import SimulationParameters
+        acc = False
+
+        def mk(tag, n):
+            vals = [c.var("%s%d" % (tag, i), "real") for i in range(n)]
+            for i in range(n - 1):
+                c.assume(vals[i] < vals[i + 1])
+            arr = np.empty(n, dtype=object)
+            for i, v in enumerate(vals):
+                arr[i] = v
+            p = SimulationParameters.create({"snr": arr, "fixed": 7})
+            p.set_unpack_parameter("snr")
+            S = it.call(r.SimulationResults, [])
+            it.call(it.getattr(S, "set_parameters"), [p])
+            rs = []
+            for i in range(n):
+                res = _havoc(c, it, _new(it, typ, acc, "x"), typ, "%s%d" % (tag.upper(), i), 1)
+                it.call(it.getattr(S, "append_result"), [res])
+                rs.append(res)
+            return S, vals, rs
+        S1, va, ra = mk("a", la)
+        S2, vb, rb = mk("b", lb)
+        c.inputs.update(grid1=list(va), grid2=list(vb))
+        snaps = [_snap(x) for x in ra + rb]
+        empty = _snap(_new(it, typ, acc, "x"))
+        U = it.call(r.combine_simulation_results, [S1, S2])
+        up = it.getattr(U, "params")
+        grid = list(np.asarray(it.call(it.getattr(up, "__getitem__"), ["snr"]), dtype=object).ravel())
+        res_u = it.call(it.getattr(U, "__getitem__"), ["x"])
+        goals = [Goal("one result per union point", len(res_u) == len(grid))]
+        if len(res_u) != len(grid):
+            return goals
+        asc = sym.SBool(z3.And([(lift(grid[i]) < lift(grid[i + 1])).t for i in range(len(grid) - 1)]))
+        goals.append(Goal("union grid strictly ascending (no duplicates)", asc))
+        for v in va + vb:
+            goals.append(Goal("every operand value is in the union grid", sym.SBool(z3.Or([(lift(g) == v).t for g in grid]))))
+        for g in grid:
+            goals.append(Goal("every union value comes from an operand", sym.SBool(z3.Or([(lift(g) == v).t for v in va + vb]))))
+        for k, g in enumerate(grid):
+            want = empty
+            for vals, rs, off in ((va, ra, 0), (vb, rb, la)):
+                for i, v in enumerate(vals):
+                    if c.prove(lift(g) == v, timeout_ms=5000)[0] == "proved":
+                        want = _plus_view(want, snaps[off + i], typ, acc)
+                    elif c.prove(lift(g) != v, timeout_ms=5000)[0] != "proved":
+                        goals.append(Goal("coincidence of union point %d with an operand value is decided on this path" % k, False))
+            goals.append(Goal("union point %d: view == empty + matching operand results" % k, sym.SBool(_eqv(_snap(res_u[k]), want, typ))))
+        for x, s0 in zip(ra + rb, snaps):
+            goals.append(Goal("operand result unchanged", sym.SBool(_eq(_snap(x), s0))))
+        return goals
+
+    def replay(mv):
+        # native: the counter-model's grids, SUM results with distinguishable contents
+        from pyphysim.simulations.results import Result, SimulationResults, combine_simulation_results
+        from pyphysim.simulations.parameters import SimulationParameters
+        try:
+            g1, g2 = [float(x) for x in mv["grid1"]], [float(x) for x in mv["grid2"]]
+            if len(set(g1)) != len(g1) or len(set(g2)) != len(g2) or sorted(g1) != g1 or sorted(g2) != g2:
+                return {"confirmed": False, "note": "model grid not strictly ascending in binary64", "grid1": g1, "grid2": g2}
+
+            def build(g, base):
+                p = SimulationParameters.create({"snr": np.array(g), "fixed": 7})
+                p.set_unpack_parameter("snr")
+                S = SimulationResults()
+                S.set_parameters(p)
+                for i in range(len(g)):
+                    res = Result("x", Result.SUMTYPE)
+                    for _ in range(i + 1):
+                        res.update(base + i)
+                    S.append_result(res)
+                return S
+            S1, S2 = build(g1, 100), build(g2, 1000)
+            try:
+                U = combine_simulation_results(S1, S2)
+            except Exception as e:
+                return {"confirmed": True, "grid1": g1, "grid2": g2, "observed": "raised %r" % e}
+            grid = [float(x) for x in U.params["snr"]]
+            want_grid = sorted(set(g1) | set(g2))
+            got = [(x.get_result(), x.num_updates) for x in U["x"]]
+            want = []
+            for v in want_grid:
+                val, n = 0, 0
+                for g, base in ((g1, 100), (g2, 1000)):
+                    if v in g:
+                        i = g.index(v)
+                        val, n = val + (base + i) * (i + 1), n + i + 1
+                want.append((val, n))
+            return {"confirmed": grid != want_grid or got != want, "grid1": g1, "grid2": g2, "union_grid": grid,
+                    "expected_union_grid": want_grid, "(value, num_updates) per union point": got, "expected": want}
+        except Exception as e:
+            return {"confirmed": False, "error": repr(e)}
+    return verify(body, max_paths=150, replay=replay)
+
+
 # ------------------------------------------------------------------ bounded / native
 @obligation("native/random_histories", kind="bounded", timeout=900,
             desc="binary64/native: random update sequences (len<=40) of all four types, accumulate on/off, random contiguous "
@@ -393,7 +499,7 @@ def ob_native():
             obs = [(int(rr.randint(5)), None) for _ in range(n)]
         elif typ == "RATIO":
             obs = [(int(rr.randint(0, 50)), int(rr.randint(1, 100))) for _ in range(n)]
-        elif typ == "SUM" and rr.rand() < 0.5:
+        elif typ == "SUM" and (not (rr.rand() >= 0.5)):
             obs = [(int(rr.randint(-5, 50)), None) for _ in range(n)]
         else:
             obs = [(float(rr.randn() * 10 ** rr.randint(-2, 3)), None) for _ in range(n)]
@@ -452,7 +558,7 @@ def ob_native():
 
 
 @obligation("native/combine_overlapping_grids", kind="bounded", timeout=900,
-            desc="combine_simulation_results / combine_simulation_parameters on random overlapping grids (int and float values, mixed "
+            desc="combine_simulation_results / combine_simulation_parameters on random overlapping grids (int and float values incl. tiny 1e-9-scaled and huge ones, mixed "
                  "dtypes, 1-2 unpacked parameters, all result types): union grid = sorted union of values; every union point holds "
                  "exactly the merge of the operands containing it; result independent of operand order; operands unchanged")
 def ob_combine():
@@ -463,7 +569,7 @@ def ob_combine():
     def gen():
         for i in range(60 if quick() else 600):
             yield {"seed": int(r.randint(1 << 30)), "typ": ["SUM", "RATIO", "MISC", "CHOICE"][i % 4], "two": bool((i // 4) % 2),
-                   "mixed": bool((i // 8) % 2)}
+                   "mixed": bool((i // 8) % 2), "scale": [1.0, 1e-9, 1.0, 1e12][(i // 3) % 4]}
 
     def build(grid, grid2, typ, rr, tag):
         d = {"SNR": np.array(grid), "fixed": 7}
@@ -504,6 +610,9 @@ def ob_combine():
         else:
             g1 = sorted(set(rr.randint(0, 10, size=rr.randint(1, 5)).tolist()))
             g2 = sorted(set(rr.randint(0, 10, size=rr.randint(1, 5)).tolist()))
+        if case.get("scale", 1.0) != 1.0:       # tiny (noise powers) and huge grids: values are matched exactly, never approximately
+            g1 = [float(x) * case["scale"] for x in g1]
+            g2 = [float(x) * case["scale"] for x in g2]
         n1 = n2 = None
         if case["two"]:
             n1 = sorted(set(rr.randint(1, 4, size=rr.randint(1, 3)).tolist()))
@@ -549,3 +658,12 @@ def ob_combine():
                 return {"order dependent": [a[:3], b[:3]]}
         return None
     return bounded(gen(), check)
+
+
+@obligation("lemma/merge_plan_independence_lean", kind="lemma", tiers=("thorough",), timeout=2400,
+            desc="L-FOLD (Lean 4 + Mathlib, lemmas/FoldChunking.lean): update == merge of a fresh singleton, merge associative, empty result a "
+                 "right unit  =>  every merge plan (any contiguous chunking, any association) equals the fold of update over the whole "
+                 "sequence; variant without unit for non-empty chunks (MISC)")
+def ob_lemma_fold_lean():
+    from pyvc.oblig import lean_lemma
+    return lean_lemma("FoldChunking.lean", 2000)
